@@ -104,6 +104,6 @@ Registrar reg(Prop{
     "Oracle: model dictionary compared with a full storage snapshot after every step (asynchronous: consecutive little-endian fields written at once, dummies skipped by width; synchronous: buffered, applied at the next SYNC exactly once; nothing outside OPERATIONAL or for other identifiers; everything else byte-identical). "
     "Non-trivial: the case has a mapping with >= 2 fields or a dummy, or a synchronous RPDO saw >= 2 SYNCs. Distinct = distinct decoded choice sequence.",
     {Mode{"random", one_case, false, 1000000, 20000000, 0, 0, 300, 500}},
-    {"with colliding identifiers the first channel in index order receives the frame", "a SYNC arriving after the node left OPERATIONAL with a buffered frame is not constrained", "frames shorter than the mapped length are not generated (statement silent)"}});
+    {"with colliding identifiers the first channel in index order receives the frame", "RPDO identifiers differ from the SYNC identifier of 1005h (there the statements of C13 and C16 contradict each other)", "a SYNC arriving after the node left OPERATIONAL with a buffered frame is not constrained", "frames shorter than the mapped length are not generated (statement silent)"}});
 
 }  // namespace
